@@ -1,15 +1,57 @@
 (* Model of the argument normalisation of segno.encoder (normalize_version / _mode / _mask / _errorlevel) and of the
    public factories segno.make / make_qr / make_micro / make_sequence, over the documented option types:
-   None, bool, int, str (ASCII strings: Python's int() and str.upper()/lower() also know non-ASCII digits and
-   letters; those are outside the model). *)
+   None, bool, int, str.  A str is the list of its code points.  int(str) is modelled for EVERY str (CPython 3.12,
+   Unicode 15.0.0, see [int_of_str]).  str.upper() / str.lower() are Base/PyCase.v [py_upper] / [py_lower]: CPython's as
+   far as ASCII characters are concerned, which is all a lookup in a dict with ASCII keys can see (DESIGN.md 11.14.1):
+   normalize_mode('\u212aanji') is kanji as in CPython (the Kelvin sign lowers to 'k'); 'kanj\u0131', 'byt\xe9' are
+   refused.  For normalize_version / normalize_errorlevel the Unicode mappings change nothing -- no image of a non-ASCII
+   code point under upper() is one of "M1" .. "M4", "L", "M", "Q", "H" ('\u017f'.upper() is 'S', '\u0131'.upper()
+   'I', '\ufb02'.upper() 'FL', '\u1e96'.upper() 'H' + U+0331) -- but they are modelled all the same. *)
 From Coq Require Import ZArith List Bool Lia.
-From Segno Require Import Base.PyLite Ref.IsoData Model.Bits Model.Segment Model.Version Model.Stream Model.Matrix Model.Encode Model.Sequence Model.Color.
+From Segno Require Import Base.PyLite Base.PyCase Ref.IsoData Model.Bits Model.Segment Model.Version Model.Stream Model.Matrix Model.Encode Model.Sequence Model.Color.
 Import ListNotations.
 Open Scope Z_scope.
 
 Inductive pyval := VNone | VBool (b : bool) | VInt (z : Z) | VStr (s : list Z).
 
-Definition is_ws (c : Z) : bool := memZ c [32; 9; 10; 11; 12; 13; 28; 29; 30; 31].
+(* ---- int(s) for a str, base 10: CPython 3.12 Objects/longobject.c PyLong_FromUnicodeObject ----
+   1. A pure-ASCII str (all code points < 128) goes to PyLong_FromString as it is.  Any other str is first rewritten
+      by _PyUnicode_TransformDecimalAndSpaceToASCII, code point by code point: c < 127 stays; a Py_UNICODE_ISSPACE
+      code point (= str.isspace) becomes ' '; a Unicode decimal digit (Py_UNICODE_TODECIMAL >= 0) becomes its ASCII
+      digit; anything else becomes '?' (CPython cuts the text there; a '?' is refused wherever it stands).
+   2. PyLong_FromString skips Py_ISSPACE characters (space, \t \n \v \f \r) on both sides, takes one optional sign,
+      then digits with single underscores between digits.  NOTE \x1c .. \x1f are str.isspace() but are never skipped:
+      they are below 127, so step 1 keeps them, and they are not Py_ISSPACE: int('\x1c5') and int('\x1c5\u2003')
+      raise ValueError, int('\u20035\xa0') is 5, int('\uff15') and int('\u0665') are 5.
+   3. More than sys.get_int_max_str_digits() = 4300 (the default) digit characters: ValueError.
+   The two tables are those of the Unicode database 15.0.0 (unicodedata.unidata_version of CPython 3.12):
+     UNI_SPACES     = [c for c in range(127, 0x110000) if chr(c).isspace()]
+     DECIMAL_ZEROS  = [c for c in range(0x110000) if unicodedata.decimal(chr(c), None) == 0]
+   and every decimal digit is z + d for a listed z and its value d in 0 .. 9 (680 code points, 68 runs of ten).
+   harness/props/c14.py compares both lists (oracle command int_tables) with a sweep of int() of the running
+   interpreter over all code points. *)
+Definition is_ws (c : Z) : bool := memZ c [32; 9; 10; 11; 12; 13].      (* Py_ISSPACE *)
+Definition UNI_SPACES : list Z :=
+  [133; 160; 5760; 8192; 8193; 8194; 8195; 8196; 8197; 8198; 8199; 8200; 8201; 8202; 8232; 8233; 8239; 8287; 12288].
+Definition DECIMAL_ZEROS : list Z :=
+  [48; 1632; 1776; 1984; 2406; 2534; 2662; 2790; 2918; 3046; 3174; 3302; 3430; 3558; 3664; 3792; 3872;
+   4160; 4240; 6112; 6160; 6470; 6608; 6784; 6800; 6992; 7088; 7232; 7248; 42528; 43216; 43264; 43472;
+   43504; 43600; 44016; 65296; 66720; 68912; 69734; 69872; 69942; 70096; 70384; 70736; 70864; 71248;
+   71360; 71472; 71904; 72016; 72784; 73040; 73120; 73552; 92768; 92864; 93008; 120782; 120792; 120802;
+   120812; 120822; 123200; 123632; 124144; 125264; 130032].
+Fixpoint decimal_of (c : Z) (zeros : list Z) : option Z :=
+  match zeros with
+  | [] => None
+  | z :: r => if (z <=? c) && (c <=? z + 9) then Some (c - z) else decimal_of c r
+  end.
+Definition to_ascii_cp (c : Z) : Z :=
+  if c <? 127 then c
+  else if memZ c UNI_SPACES then 32
+  else match decimal_of c DECIMAL_ZEROS with Some d => 48 + d | None => 63 end.
+Definition is_ascii (s : list Z) : bool := forallb (fun c => c <? 128) s.
+Definition int_text (s : list Z) : list Z := if is_ascii s then s else map to_ascii_cp s.
+Definition MAX_STR_DIGITS : Z := 4300.
+
 Fixpoint lstrip (s : list Z) : list Z := match s with c :: r => if is_ws c then lstrip r else s | [] => [] end.
 Definition strip (s : list Z) : list Z := rev (lstrip (rev (lstrip s))).
 Definition is_dig (c : Z) : bool := (48 <=? c) && (c <=? 57).
@@ -22,14 +64,18 @@ Fixpoint digits_val (s : list Z) (acc : Z) (prev_digit : bool) : option Z :=
                      match r with d :: _ => if is_dig d then digits_val r acc false else None | [] => None end
               else None
   end.
-(* int(str) in base 10 *)
-Definition int_of_str (s : list Z) : option Z :=
-  match strip s with
+(* PyLong_FromString on an ASCII text, without the digit limit *)
+Definition int_of_ascii (t : list Z) : option Z :=
+  match strip t with
   | [] => None
   | c :: r => if c =? 45 then option_map Z.opp (digits_val r 0 false)
               else if c =? 43 then digits_val r 0 false
               else digits_val (c :: r) 0 false
   end.
+(* int(str) in base 10 *)
+Definition int_of_str (s : list Z) : option Z :=
+  let t := int_text s in
+  if MAX_STR_DIGITS <? lenZ (filter is_dig t) then None else int_of_ascii t.
 Definition py_int_val (v : pyval) : res Z :=
   match v with
   | VNone => Err TypeErr
@@ -38,8 +84,6 @@ Definition py_int_val (v : pyval) : res Z :=
   | VStr s => match int_of_str s with Some z => Ok z | None => Err ValueError end
   end.
 
-Definition upper_cp (c : Z) : Z := if (97 <=? c) && (c <=? 122) then c - 32 else c.
-Definition upper (s : list Z) : list Z := map upper_cp s.
 Definition str_of_string (s : String.string) : list Z :=
   (fix go (s : String.string) := match s with String.EmptyString => [] | String.String a r => Z.of_nat (Ascii.nat_of_ascii a) :: go r end) s.
 Fixpoint assoc_sz (k : list Z) (l : list (String.string * Z)) : option Z :=
@@ -52,7 +96,7 @@ Definition normalize_version (version : pyval) : res (option Z) :=
       let r := match py_int_val version with
                | Ok z => if z <? 1 then None else Some z
                | Err _ => match version with
-                          | VStr s => assoc_sz (upper s) MICRO_VERSION_MAPPING
+                          | VStr s => assoc_sz (py_upper s) MICRO_VERSION_MAPPING
                           | _ => None end
                end in
       match r with
@@ -67,7 +111,7 @@ Definition normalize_mode (mode : pyval) : res (option Z) :=
   | VNone => Ok None
   | VInt z => if memZ z mode_values then Ok (Some z) else Err ValueError
   | VBool b => if memZ (if b then 1 else 0) mode_values then Ok (Some (if b then 1 else 0)) else Err ValueError
-  | VStr s => match assoc_sz (lower s) MODE_MAPPING with Some m => Ok (Some m) | None => Err ValueError end
+  | VStr s => match assoc_sz (py_lower s) MODE_MAPPING with Some m => Ok (Some m) | None => Err ValueError end
   end.
 
 Definition normalize_mask (mask : pyval) (is_micro : bool) : res (option Z) :=
@@ -81,7 +125,7 @@ Definition error_values : list Z := map snd ERROR_MAPPING.
 Definition normalize_errorlevel (error : pyval) (accept_none : bool) : res (option Z) :=
   match error with
   | VNone => if accept_none then Ok None else Err ValueError
-  | VStr s => match assoc_sz (upper s) ERROR_MAPPING with Some e => Ok (Some e) | None => Err ValueError end
+  | VStr s => match assoc_sz (py_upper s) ERROR_MAPPING with Some e => Ok (Some e) | None => Err ValueError end
   | VInt z => if memZ z error_values then Ok (Some z) else Err ValueError
   | VBool b => if memZ (if b then 1 else 0) error_values then Ok (Some (if b then 1 else 0)) else Err ValueError
   end.
